@@ -5,13 +5,17 @@
   lexical condition, the exact width bounds and the range set.  decimal64: the lexical condition and the exact
   64-bit bounds are proved against scaled integers (`C16_dec64_lex`); the comparison with *ranges* is done by
   the code in binary64, which is adequate away from the 64-bit bounds and not near them (known finding
-  C16-decimal64-float-ranges; witness `C16_dec64_float_witness`).  Patterns (RE2 vs XSD dialect), identityref
-  and union are not in this model: union = "some member accepts" and identities = "derived set" are covered by
-  the correspondence stream only where the generator builds them.
+  C16-decimal64-float-ranges; witness `C16_dec64_float_witness`).  Patterns: a string is accepted iff its
+  length fits and every pattern of every level matches the whole string, where "matches" is membership in the
+  language of the expression (`C16_pattern`, `C16_pattern_lang`; the expressions are the regular fragment the
+  generators use — RE2 itself is trusted on it).  identityref: the accepted values are exactly the identities
+  whose chain of `base` statements leads up to the base (`C16_identityref`).  union: some member accepts
+  (`C16_union`).  What a rejection carries: `C16_reject_num`, `C16_reject_str`.
 -/
 import YV.Spec.YTypesS
+import YV.Proofs.YValues
 namespace YV.C16
-open YV YV.Y YV.T YV.TS
+open YV YV.Y YV.T YV.TS YV.V YV.VS
 
 theorem C16_int (w : Nat) (rs : List (Int × Int)) (s : Bytes) :
     validate (.int w rs) s = true ↔
@@ -60,5 +64,95 @@ theorem C16_dec64_lex_witness :
 /-- non-vacuity -/
 example : validate (.int 8 [(-128, 127)]) (asc "+127") = true ∧ validate (.int 8 [(-128, 127)]) (asc "128") = false ∧
           validate (.uint 8 [(0, 255)]) (asc "+5") = true ∧ validate (.str [(1, 2)] 0) [0xC3, 0xA9, 0xC3, 0xA9] = true := by decide
+
+/-! ### patterns, identityrefs, unions, error information (Model.YValues) -/
+
+theorem firstFailing_none (s : List Nat) (pats : List (Re × EI)) :
+    firstFailing s pats = none ↔ ∀ p ∈ pats, reMatch p.1 s = true := by
+  induction pats with
+  | nil => simp [firstFailing]
+  | cons p r ih =>
+    obtain ⟨re, ei⟩ := p
+    simp only [firstFailing]
+    by_cases h : reMatch re s = true <;> simp [h, ih]
+
+theorem firstFailing_some (s : List Nat) (pats : List (Re × EI)) (ei : EI) :
+    firstFailing s pats = some ei → ∃ re, (re, ei) ∈ pats ∧ reMatch re s = false := by
+  induction pats with
+  | nil => simp [firstFailing]
+  | cons p r ih =>
+    obtain ⟨re, e⟩ := p
+    simp only [firstFailing]
+    by_cases h : reMatch re s = true
+    · simp only [h, if_true]; intro h2; obtain ⟨re', hm, hf⟩ := ih h2; exact ⟨re', by simp [hm], hf⟩
+    · simp only [h]; intro h2; cases h2; exact ⟨re, by simp, by simpa using h⟩
+
+/-- **C16 (strings with patterns).** accepted iff the length fits and every pattern of every level of the
+    typedef chain matches the whole string (implicit anchoring) -/
+theorem C16_pattern (t : Ty) (len : EI) (pats : List (Re × EI)) (s : Bytes) :
+    check (.str t len pats) s = none ↔
+      validate t s = true ∧ ∀ p ∈ pats, reMatch p.1 ((XL.decode s).map (·.cp)) = true := by
+  simp only [check]
+  by_cases hv : validate t s = true
+  · simp only [hv, Bool.not_true, Bool.false_eq_true, if_false, true_and]
+    rw [← firstFailing_none]
+    cases firstFailing ((XL.decode s).map (·.cp)) pats <;> simp
+  · simp [hv]
+
+/-- … and "matches" is membership in the language the expression denotes -/
+theorem C16_pattern_lang (r : Re) (s : List Nat) : reMatch r s = true ↔ Lang r s := reMatch_iff r s
+
+/-- **C16 (identityref).** with the compiler's fuel (the number of identities) or any other: the values
+    accepted are the renderings of exactly the identities derived, at any depth, from the base -/
+theorem C16_identityref (ids : List Ident) (lm : Bytes) (f : Nat) (b : Bytes × Bytes) (s : Bytes) :
+    check (.ident (identVals ids lm f b)) s = none ↔ ∃ i ∈ ids, render lm i = s ∧ up ids f i b = true := by
+  simp only [check]
+  rw [← mem_identVals_iff]
+  by_cases h : s ∈ identVals ids lm f b <;> simp [h]
+
+theorem anyAccepts_iff (ms : List VT) (s : Bytes) : anyAccepts ms s = true ↔ ∃ m ∈ ms, check m s = none := by
+  induction ms with
+  | nil => simp [anyAccepts]
+  | cons m r ih => simp [anyAccepts, ih, Option.isNone_iff_eq_none]
+
+/-- **C16 (union).** a union accepts iff some member accepts -/
+theorem C16_union (ms : List VT) (s : Bytes) : check (.union ms) s = none ↔ ∃ m ∈ ms, check m s = none := by
+  simp only [check]
+  rw [← anyAccepts_iff]
+  by_cases h : anyAccepts ms s = true <;> simp [h]
+
+/-- **C16 (what a rejection carries, numbers).** the custom message of the effective range statement when
+    it defines one, its app-tag or the default "range-violation" -/
+theorem C16_reject_num (t : Ty) (ei : EI) (s : Bytes) (r : Rej) :
+    check (.num t ei) s = some r → validate t s = false ∧ r.msg = ei.msg ∧ r.tag = ei.tag.getD "range-violation" := by
+  simp only [check]
+  by_cases hv : validate t s = true
+  · simp [hv]
+  · have hf : validate t s = false := by simpa using hv
+    simp only [hf]; intro h; cases h; simp
+
+/-- **C16 (what a rejection carries, strings).** either the length is violated and the error is the length
+    statement's, or some pattern does not match and the error is that pattern's -/
+theorem C16_reject_str (t : Ty) (len : EI) (pats : List (Re × EI)) (s : Bytes) (r : Rej) :
+    check (.str t len pats) s = some r →
+      (validate t s = false ∧ r.msg = len.msg ∧ r.tag = len.tag.getD "length-violation") ∨
+      (validate t s = true ∧ ∃ re ei, (re, ei) ∈ pats ∧ reMatch re ((XL.decode s).map (·.cp)) = false ∧
+        r.msg = ei.msg ∧ r.tag = ei.tag.getD "pattern-violation") := by
+  simp only [check]
+  by_cases hv : validate t s = true
+  · simp only [hv, Bool.not_true, Bool.false_eq_true, if_false]
+    cases hf : firstFailing ((XL.decode s).map (·.cp)) pats with
+    | none => simp
+    | some ei =>
+      intro h; cases h
+      obtain ⟨re, hm, hn⟩ := firstFailing_some _ _ _ hf
+      exact .inr ⟨by simp, re, ei, hm, hn, rfl, rfl⟩
+  · have hf : validate t s = false := by simpa using hv
+    simp only [hf]; intro h; cases h; simp
+
+/-! non-vacuity: the anchoring matters — `a|b` accepts "a" and "b" and not "ab" -/
+example : reMatch (.alt (.chr 97) (.chr 98)) [97] = true ∧ reMatch (.alt (.chr 97) (.chr 98)) [97, 98] = false := by decide
+example : let ids : List Ident := [⟨[1], [10], none⟩, ⟨[1], [11], some ([1], [10])⟩, ⟨[2], [12], some ([1], [11])⟩]
+    identVals ids [1] 3 ([1], [10]) = [[11], [2, 58, 12]] := by decide
 
 end YV.C16
